@@ -231,6 +231,9 @@ impl Index {
     settings: &Settings,
     event_sender: Option<tokio::sync::mpsc::Sender<Event>>,
   ) -> Result<Self> {
+    #[cfg(feature = "verif")]
+    use self::verif::storage::Database;
+
     let client = settings.bitcoin_rpc_client(None)?;
 
     let path = settings.index().to_owned();
